@@ -13,7 +13,7 @@ DEMODIR=$(python3 -c "import json;print(json.load(open('$SD/meta.json')).get('de
 if ! git -C $WT apply $SD/patch.diff; then echo "SEED $P: patch does not apply to HEAD"; exit 1; fi
 (cd $WT && go build ./... ) && echo "SEED $P: builds" || { echo "SEED $P: BUILD FAILS"; exit 1; }
 python3 /verif/tools/baseline.py $WT | head -3
-cp $SD/demo_test.go $WT/$DEMODIR/zz_seed_demo_test.go
+cp $(ls $SD/demo_test.go $SD/demo_test.go.txt 2>/dev/null | head -1) $WT/$DEMODIR/zz_seed_demo_test.go
 (cd $WT/$DEMODIR && go test -mod=mod -vet=off -count=1 -run 'Seed|Demo|C[0-9][0-9]' . >/tmp/scratch/demo_with.log 2>&1) && echo "SEED $P: demo PASSES with patch (bad)" || echo "SEED $P: demo fails with patch (good)"
 git -C $WT apply -R $SD/patch.diff
 (cd $WT/$DEMODIR && go test -mod=mod -vet=off -count=1 -run 'Seed|Demo|C[0-9][0-9]' . >/tmp/scratch/demo_without.log 2>&1) && echo "SEED $P: demo passes without patch (good)" || { echo "SEED $P: demo FAILS without patch (bad)"; tail -5 /tmp/scratch/demo_without.log; }
